@@ -279,7 +279,7 @@ def run_histories(ctx, out):
         for (sysn, path, nth) in points:
             for act in ("kill", "killafter"):
                 setup()
-                r = xcp.run_supervised(sup, argv, d, d, rules=[(act, 0, 0, sysn, nth, path)], tag="k")
+                r = xcp.run_supervised(sup, argv, d, d, rules=[(act, 0, 0, sysn, nth, "=" + path)], tag="k")
                 st = dir_state(os.path.join(d, "t"))
                 out.case(("kill", base, driver, sysn, path[len(d):], nth, act), nontrivial=True)
                 out.count("kill_points")
@@ -290,7 +290,60 @@ def run_histories(ctx, out):
                                   "name (or an existing backup changed)" % (act, sysn, nth, path[len(d):], base),
                                   dict(kind="kill", base=repr(base), driver=driver, point=(act, sysn, path, nth), argv=argv,
                                        files=sorted(repr(x) for x in st)))
+        # ---- one injected errno at every call of the overwrite (mutating or not): whatever fails, the old version must
+        # survive under the original or the backup name, no existing backup may change, and exit 0 means the full property
+        calls = [e for e in ref.trace if "/.sup" not in e["p1"] and e["sys"] not in ("close", "exit_group", "clone3", "clone", "umask")]
+        seen = {}
+        fpoints = []
+        for e in calls:
+            key = (e["sys"], e["p1"])
+            seen[key] = seen.get(key, 0) + 1
+            fpoints.append((e["sys"], e["p1"], seen[key]))
+        for i, (sysn, path, nth) in enumerate(fpoints):
+            errnos = [5, 28, 13] if sysn.startswith("rename") else [[5, 28, 13, 24, 30, 1][i % 6]]
+            if sysn.startswith("rename"):
+                errnos.append(36)      # ENAMETOOLONG
+            for errno in errnos:
+                setup()
+                before = dir_state(os.path.join(d, "t"))
+                r = xcp.run_supervised(sup, argv, d, d, rules=[("fail", errno, 0, sysn, nth, "=" + path)], tag="f", timeout_ms=20000)
+                st = dir_state(os.path.join(d, "t"))
+                out.case(("fault", base, driver, sysn, path[len(d):], nth, errno), nontrivial=True)
+                out.count("fault_points")
+                old_ok = st.get(base) == b"OLD-CONTENT" * 300 or st.get(base + b".~5~") == b"OLD-CONTENT" * 300
+                older_ok = st.get(base + b".~4~") == b"older"
+                rep = dict(kind="fault", base=repr(base), driver=driver, point=(sysn, path, nth, errno), argv=argv, exit=r.exit,
+                           files=sorted(repr(x) for x in st))
+                if not (old_ok and older_ok):
+                    out.violation("errno %d injected at %s #%d of %s (exit %d): the old content of %r is neither under the original "
+                                  "nor the backup name (or an existing backup changed)" % (errno, sysn, nth, path[len(d):], r.exit, base), rep)
+                elif r.exit == 0:
+                    check_step(out, base, "numbered", before, st, b"NEW-CONTENT" * 500, 0, rep)
         shutil.rmtree(d, ignore_errors=True)
+    # ---- a name so long that <name>.~N~ does not fit: the overwrite must be refused with the old file intact
+    for driver in ("parfile", "parblock"):
+        for (ln, prebak) in ((252, None), (250, 99), (255, None)):
+            d = os.path.join(d0, "long_%s_%d" % (driver, ln))
+            os.makedirs(os.path.join(d, "s"))
+            os.makedirs(os.path.join(d, "t"))
+            base = b"L" * ln
+            open(os.path.join(os.fsencode(d), b"s", base), "wb").write(b"NEW")
+            open(os.path.join(os.fsencode(d), b"t", base), "wb").write(b"OLD-LONG")
+            if prebak:
+                open(os.path.join(os.fsencode(d), b"t", base + b".~%d~" % prebak), "wb").write(b"older")
+            before = dir_state(os.path.join(d, "t"))
+            argv = [ctx.bins["xcp"], "-r", "-T", "--driver", driver, "-w", "2", "--backup", "numbered", os.path.join(d, "s"), os.path.join(d, "t")]
+            r = xcp.run_plain(argv, d)
+            after = dir_state(os.path.join(d, "t"))
+            out.case(("longname", driver, ln, prebak), True)
+            out.count("long_names")
+            rep = dict(kind="long-name", length=ln, driver=driver, argv=argv, exit=r.exit, stderr=r.stderr[-200:])
+            if b"OLD-LONG" not in after.values():
+                out.violation("a %d-byte name whose backup name does not fit: the old version was lost (exit %d)" % (ln, r.exit), rep)
+            for n, c in before.items():
+                if n != base and after.get(n) != c:
+                    out.violation("existing backup changed while overwriting a %d-byte name" % ln, rep)
+            shutil.rmtree(d, ignore_errors=True)
 
 
 def run(ctx, out):
